@@ -153,12 +153,50 @@ def pXy2ll : P String := do
   let r := xyToLatlon FloatFns a b c d
   pure (okLine #[r.1, r.2])
 
+def pPsi (phiQ : Bool) : P String := do
+  let x ← pFloat
+  pEnd
+  pure (okLine #[if phiQ then phi FloatFns x else psi FloatFns x])
+
+def pProfiles : P String := do
+  let cl ← tok
+  let closure := if cl == "MOST" then Closure.most else if cl == "MOSTM" then Closure.mostm
+    else if cl == "CONSTANT" then Closure.constant else if cl == "OAAHOC" then Closure.oaahoc else Closure.invalid
+  let n ← pNat
+  let zm ← pFloat
+  let um ← pFloat
+  let vm ← pFloat
+  let ustar ← pOptFloat
+  let z0 ← pOptFloat
+  let mol ← pFloat
+  let prsc ← pFloat
+  let dh ← pOptFloat
+  let st ← pOptFloat
+  let tke ← pOptFloat
+  pEnd
+  if n == 0 then failure
+  let q : PblReq Float :=
+    { n := n, zm := zm, um := um, vm := vm, ustar := ustar, z0 := z0, mol := mol, prsc := prsc,
+      closure := closure, domainHeight := dh, stretch := st, tke := tke }
+  match verticalProfiles FloatFns q with
+  | .error e => pure s!"err {errName e}"
+  | .ok o =>
+    if o.len > 100000 then failure
+    let mut xs : Array Float := #[Float.ofNat o.len]
+    for f in [o.z, o.P.u, o.P.v, o.P.Kx, o.P.Ky, o.P.Kz] do
+      for k in [0:o.len] do
+        xs := xs.push (f k)
+    pure (okLine xs)
+
 def dispatch : P String := do
   let op ← tok
   if op == "solve" then pSolve
   else if op == "wind" then pWind
   else if op == "ll2xy" then pLl2xy
   else if op == "xy2ll" then pXy2ll
+  else if op == "psi" then pPsi false
+  else if op == "phi" then pPsi true
+  else if op == "profiles" then pProfiles
   else failure
 
 def handle (line : String) : String :=
